@@ -175,7 +175,20 @@ func c06Positions() []position {
 	// ":=" that re-uses a variable of the same scope keeps its type (Go: assignment to the existing variable)
 	add("short-reuse-existing-slot", is(oI), "vi, nx := @, 2").topOnly = true
 	add("short-reuse-existing-slot2", is(oS), "nx, vs := 2, @").topOnly = true
+	// the same through a multi-value call: fm() is (int, string), so the re-used variable must have the type of its slot
+	add("short-reuse-existing-from-call-slot1-int", is(oM), "vi, nx := @").topOnly = true
+	add("short-reuse-existing-from-call-slot2-string", is(oM), "nx, vs := @").topOnly = true
+	add("short-reuse-existing-from-call-slot1-mismatch", func(o offer) bool { return false }, "vs, nx := @").only = is(oM)
+	add("short-reuse-existing-from-call-slot2-mismatch", func(o offer) bool { return false }, "nx, vi := @").only = is(oM)
+	add("short-reuse-existing-from-call-slot2-bool", func(o offer) bool { return false }, "nx, vb := @").only = is(oM)
 	add("short-three-from-one", func(o offer) bool { return false }, "x, y, z := @")
+	// assignment of a two-value call to one, two (matching) and three existing names
+	add("assign-two-from-call", is(oM), "var q1 int", "var q2 string", "q1, q2 = @").only = is(oM)
+	add("assign-three-from-call", func(o offer) bool { return false }, "var q1 int", "var q2 string", "var q3 int", "q1, q2, q3 = @").only = is(oM)
+	add("assign-three-from-call-string-last", func(o offer) bool { return false }, "var q1 int", "var q2 string", "var q3 string", "q1, q2, q3 = @").only = is(oM)
+	add("assign-one-from-call", func(o offer) bool { return false }, "var q1 int", "q1 = @").only = is(oM)
+	add("assign-two-from-call-swapped-types", func(o offer) bool { return false }, "var q1 string", "var q2 int", "q1, q2 = @").only = is(oM)
+	add("var-three-from-call", func(o offer) bool { return false }, "var q1, q2, q3 = @").only = is(oM)
 	// assignments
 	add("assign-int", is(oI), "vi = @")
 	add("assign-bool", is(oB), "vb = @")
